@@ -1241,8 +1241,13 @@ class Conv:
                     args.extend(t.atom('idx', (inner, t.const(j))) for j in range(t.ret_len(t.atoms[ia].extra[0])))
                     continue
             args.append(v)
+        kws_ = list(n.keywords)
+        if name in ('zeros', 'ones', 'empty', 'logspace', 'linspace') and recv is None:
+            # the default dtype of these constructors is float64: saying so changes nothing
+            kws_ = [k for k in kws_ if not (k.arg == 'dtype' and ast.unparse(k.value) in (
+                'np.float64', 'numpy.float64', 'float', 'np.float_', "'float64'", 'np.double'))]
         kw = tuple(sorted(((k.arg or '**', self.expr(k.value))
-                           for k in n.keywords), key=lambda kv: kv[0]))
+                           for k in kws_), key=lambda kv: kv[0]))
         kwn = tuple(k for k, _ in kw)
         kwv = [v for _, v in kw]
         recv_rf = None
@@ -1254,6 +1259,18 @@ class Conv:
             inl = self.on_call(n, name, recv, args, kw, recv_rf)
             if inl is not None:
                 return inl
+        # f(a, q=c, p=b) for a function of the analysed tree whose definitions all name their parameters (p, q) after the
+        # first is f(a, b, c): keyword arguments that continue the positional ones are positional
+        sig_ = getattr(t, 'signatures', None)
+        sg_ = sig_(name) if sig_ is not None and name is not None and not any(isinstance(a, ast.Starred) for a in n.args) else None
+        if sg_ is not None and kw and not any(k == '**' for k, _ in kw):
+            kd_ = dict(kw)
+            args = list(args)       # (the call event keeps the arguments as written)
+            while len(args) < len(sg_) and sg_[len(args)] in kd_:
+                args.append(kd_.pop(sg_[len(args)]))
+            kw = tuple(sorted(kd_.items(), key=lambda kv: kv[0]))
+            kwn = tuple(k for k, _ in kw)
+            kwv = [v for _, v in kw]
         if recv_rf is not None and name is not None and getattr(t, 'records', None) is not None:
             # a callable taken from a record field that is an item of a row: _Row._make(row).fget() is row[2]()
             cand_ = t.atom('getattr', (recv_rf, name))
